@@ -432,6 +432,9 @@ func (p *parser) parseDotMember(left ast.Expression) ast.Expression {
 		return &ast.BadExpression{From: period, To: p.idx}
 	}
 
+	// A reserved word used as a property name ends an expression like an
+	// identifier does, so a line break after it can end the statement.
+	p.insertSemicolon = true
 	p.next()
 
 	return &ast.DotExpression{
